@@ -39,6 +39,7 @@ class Ctx:
         self.steps = 0
         self.step_budget = None
         self.decisions = None
+        self.symsets = []
 
     def reset(self, model):
         self.model = model
@@ -49,6 +50,7 @@ class Ctx:
         self.opaque = 0
         self.log = []
         self.steps = 0
+        self.symsets = []
 
     def ev(self, e):
         return z3.is_true(self.model.eval(e, model_completion=True))
@@ -139,6 +141,14 @@ class SymInt:
     __index__ = concrete
     __int__ = concrete
 
+    def __reduce__(self):
+        # configuration values travel through pickle (C16): a symbolic constant is re-attached by name
+        if z3.is_int_value(self.e):
+            return (SymInt, (self.e.as_long(),))
+        if z3.is_const(self.e):
+            return (_symint_named, (str(self.e),))
+        return (SymInt, (self.concrete(),))
+
     def __repr__(self):
         return f"SymInt({CTX.ev_int(self.e) if CTX.model is not None else self.e})"
 
@@ -147,6 +157,10 @@ class SymInt:
 
     def __format__(self, spec):
         return format(CTX.ev_int(self.e), spec)
+
+
+def _symint_named(name):
+    return SymInt(z3.Int(name))
 
 
 class Result(dict):
